@@ -31,6 +31,9 @@ type c08Slot struct {
 }
 
 type c08Case struct {
+	Vary    bool   `json:"vary"`    // runs skip some of their reads (a cached child dropped and adopted again later)
+	StopMid bool   `json:"stopmid"` // stop some rerunners while runs are in flight
+	Loose   bool   `json:"loose"`   // AddDependency from a context without rerunner on shared resources
 	Seed    uint64 `json:"seed"`
 	Slots   int    `json:"slots"`
 	Runners int    `json:"runners"`
@@ -136,7 +139,10 @@ func c08Scenario(c *Ctx, cs c08Case) (graph, rel []rxLabel, verdict string, deta
 				reactive.PurgeCache(ctx)
 			}
 			out := map[int]int64{}
-			for _, si := range rn.reads {
+			for k, si := range rn.reads {
+				if cs.Vary && len(rn.reads) > 1 && (int(n)+k)%3 == 1 {
+					continue // this run does not use this child
+				}
 				m, err := readSlot(ctx, si, rn.nest)
 				if err != nil {
 					return nil, err
@@ -185,6 +191,29 @@ func c08Scenario(c *Ctx, cs c08Case) (graph, rel []rxLabel, verdict string, deta
 			}
 		}()
 	}
+	if cs.Loose {
+		for i := 0; i < 3; i++ {
+			s := slots[r.Intn(cs.Slots)]
+			s.mu.Lock()
+			cr := s.cur
+			s.mu.Unlock()
+			// legal: a read outside any rerunner registers nothing lasting
+			reactive.AddDependency(context.Background(), cr.res, nil)
+			atomic.StoreInt32(&cr.used, 1)
+			runtime.Gosched()
+		}
+	}
+	if cs.StopMid {
+		for _, rn := range runners {
+			if r.Chance(0.5) {
+				time.Sleep(time.Duration(r.Intn(400)) * time.Microsecond)
+				rn.rr.Stop()
+				rn.mu.Lock()
+				rn.stopped = true
+				rn.mu.Unlock()
+			}
+		}
+	}
 	wg.Wait()
 	atomic.StoreInt32(&quiet, 1)
 	// a last change per slot, so that cached values holding an armed timer are recomputed without one
@@ -227,6 +256,10 @@ func c08Scenario(c *Ctx, cs c08Case) (graph, rel []rxLabel, verdict string, deta
 	// freshness: every value in every rerunner's final output is the current version
 	for ri, rn := range runners {
 		rn.mu.Lock()
+		if rn.stopped {
+			rn.mu.Unlock()
+			continue
+		}
 		for si, v := range rn.last {
 			slots[si].mu.Lock()
 			cur := slots[si].version
@@ -234,12 +267,6 @@ func c08Scenario(c *Ctx, cs c08Case) (graph, rel []rxLabel, verdict string, deta
 			if v != cur {
 				verdict = "impl_ne_spec"
 				detail["what"] = fmt.Sprintf("stale value in the final output: rerunner %d holds version %d of slot %d (read directly or through a cached sub-computation), current version is %d", ri, v, si, cur)
-			}
-		}
-		for _, si := range rn.reads {
-			if _, ok := rn.last[si]; !ok {
-				verdict = "impl_ne_spec"
-				detail["what"] = fmt.Sprintf("rerunner %d has no value for slot %d", ri, si)
 			}
 		}
 		rn.mu.Unlock()
@@ -277,6 +304,13 @@ func c08Scenario(c *Ctx, cs c08Case) (graph, rel []rxLabel, verdict string, deta
 		detail["error"] = problems[0]
 	}
 	detail["cleanups"] = cleanups
+	bd := map[int]bool{}
+	log.mu.Lock()
+	for k, v := range log.bornDead {
+		bd[k] = v
+	}
+	log.mu.Unlock()
+	detail["born_dead"] = bd
 	var runs int64
 	for _, rn := range runners {
 		runs += atomic.LoadInt64(&rn.runs)
@@ -292,7 +326,7 @@ func c08One(c *Ctx, m *Model, cs c08Case) {
 		rep.Fail(verdict, nil, cs, detail)
 		return
 	}
-	if kind, d := rxQuiescentCheck(m, graph, detail["quiescent_at"].(int)); kind != "" {
+	if kind, d := rxQuiescentCheck(m, graph, detail["quiescent_at"].(int), detail["born_dead"].(map[int]bool)); kind != "" {
 		rep.Fail(kind, nil, cs, d)
 		return
 	}
@@ -386,7 +420,8 @@ func runC08(c *Ctx) error {
 	}
 	n := c.N(250, 5000)
 	for i := 0; i < n && !c.Rep.ShouldStop(); i++ {
-		cs := c08Case{Seed: c.Rng.U64(), Slots: 1 + c.Rng.Intn(4), Runners: 1 + c.Rng.Intn(3), Bumps: 1 + c.Rng.Intn(10), Timers: c.Rng.Chance(0.4), Purge: c.Rng.Chance(0.3)}
+		cs := c08Case{Seed: c.Rng.U64(), Slots: 1 + c.Rng.Intn(4), Runners: 1 + c.Rng.Intn(3), Bumps: 1 + c.Rng.Intn(10), Timers: c.Rng.Chance(0.4), Purge: c.Rng.Chance(0.3),
+			Vary: c.Rng.Chance(0.4), StopMid: c.Rng.Chance(0.35), Loose: c.Rng.Chance(0.3)}
 		c08One(c, m, cs)
 	}
 	return nil
